@@ -139,9 +139,21 @@ def const_usize(src, name, fact):
         raise Missing(fact + ":expr")
     return int(eval(expr))
 
+def moved_fn(src, name):
+    """a function that is not (any more) in the file an extractor expects it in: its one definition elsewhere in the crate"""
+    rel = getattr(src, "rel", None)
+    if rel and rel.startswith("crates/") and "/src/" in rel:
+        cands = crate_index(rel).fns().get(name, [])
+        if len(cands) == 1:
+            return cands[0]
+    return None
+
 def fn_body_raw(src, name, fact):
     m = re.search(r"\bfn\s+" + re.escape(name) + r"\b", src)
     if not m:
+        f = moved_fn(src, name)
+        if f:
+            return f["body"]
         raise Missing(fact)
     i = src.find("{", m.end())
     depth, j = 0, i
@@ -206,6 +218,9 @@ def fn_params(src, name, fact):
     for f in _fn_items(src):
         if f["name"] == name:
             return f["params"]
+    f = moved_fn(src, name)
+    if f:
+        return f["params"]
     raise Missing(fact + ":params")
 
 def param_of_type(src, name, type_re, fact):
